@@ -219,7 +219,7 @@ struct StreamSim : Sim {
                         case 3:
                         case 4: return g.below(48 * 16 + 18);
                         case 5: return 16 * g.below(130);
-                        case 6: return g.below(16384);
+                        case 6: return g.chance(1, 2) ? g.below(16384) : 4096 * (1 + g.below(3)) - 600 + g.below(1200); // around the 8-bit counter wrap
                         default: return g.chance(1, 20) ? g.below(65536) : g.below(4096);
                         }
                 }
@@ -781,6 +781,14 @@ struct StreamSim : Sim {
                 case 5: n = o.c % (48 * 16 + 18); break;
                 case 6: n = 16 * (o.c % 60); break;
                 case 7: n = rem; break;
+                case 8: {
+                        // stop in the neighbourhood of a wrap of the low counter byte: blocks consumed = 256*k - j, j in 0..40
+                        size_t blk = c.pos / 16, j = (size_t) (o.c % 41);
+                        size_t target_blk = ((blk + j) / 256 + 1) * 256 - j;
+                        size_t target = target_blk * 16 + (size_t) ((o.c >> 6) % 3) - 1; // just before, on, just after a block boundary
+                        n = target > c.pos ? target - c.pos : 16;
+                        break;
+                }
                 default: n = o.c % (rem + 1); break;
                 }
                 n = std::min(n, rem);
